@@ -84,9 +84,27 @@ func genContent(rng *rand.Rand, i int) []byte {
 var drainCount atomic.Int64
 
 func drain(r io.Reader) ([]byte, error) {
-	if drainCount.Add(1)%2 == 0 {
+	switch n := drainCount.Add(1); n % 4 {
+	case 0:
 		var buf bytes.Buffer
 		_, err := io.Copy(&buf, r)
+		return buf.Bytes(), err
+	case 2:
+		// look at the first bytes (a format sniff, a header), then copy the rest
+		head := make([]byte, 1+n%7)
+		k := 0
+		for k < len(head) {
+			m, err := r.Read(head[k:])
+			k += m
+			if err == io.EOF {
+				return head[:k], nil
+			}
+			if err != nil {
+				return head[:k], err
+			}
+		}
+		buf := bytes.NewBuffer(head[:k])
+		_, err := io.Copy(buf, r)
 		return buf.Bytes(), err
 	}
 	return io.ReadAll(r)
